@@ -227,7 +227,8 @@ func runIsolated(id string, n int, payload func(i int) []byte, deadline time.Tim
 					return
 				}
 				cmd := exec.Command(self, os.Args[1:]...)
-				cmd.Env = append(os.Environ(), fmt.Sprintf("%s=%s:%d:%d:%d:%d", workerEnv, id, k, N, -1, deadline.Unix()))
+				// one case at a time per child: a child needs little parallelism of its own
+				cmd.Env = append(os.Environ(), fmt.Sprintf("%s=%s:%d:%d:%d:%d", workerEnv, id, k, N, -1, deadline.Unix()), "GOMAXPROCS=2")
 				cmd.ExtraFiles = []*os.File{pw}
 				tail := &tailBuf{max: 64 << 10}
 				cmd.Stderr = tail
